@@ -31,6 +31,11 @@ type sInst struct {
 	Chain  []int `json:"chain"`
 	Merge  bool  `json:"merge"`
 	First  int   `json:"first"` // start events triggered by the instance's first start action (1..Starts); the rest by its second
+	// SigStarts: bit k set = start event k carries a signal definition "ss<k>";
+	// the action "resignal" hands the instance the signal of a start event that
+	// has ALREADY fired: nothing may happen (in particular the start event does
+	// not count a second time towards "every start event has fired")
+	SigStarts int `json:"sigStarts,omitempty"`
 }
 
 type sAction struct {
@@ -131,7 +136,7 @@ func runShared(d sharedDesc) *sharedResult {
 		return r
 	}
 	for i, si := range d.Insts {
-		g := build(descriptor{Starts: si.Starts, Chain: si.Chain, Merge: si.Merge})
+		g := build(descriptor{Starts: si.Starts, Chain: si.Chain, Merge: si.Merge, SigStarts: si.SigStarts})
 		prog := &gen.Program{G: g, DefaultLang: "expr"}
 		x := prog.XML()
 		r.XML = append(r.XML, x)
@@ -341,6 +346,16 @@ func runShared(d sharedDesc) *sharedResult {
 			}
 		case "answer":
 			o = answer(i, a.Arg)
+		case "resignal":
+			if run.fired == 0 {
+				continue
+			}
+			k := a.Arg % run.fired
+			if d.Insts[i].SigStarts&(1<<k) == 0 {
+				continue
+			}
+			run.p.ConsumeEvent(drive.Signal(fmt.Sprintf("ss%d", k)))
+			r.History = append(r.History, fmt.Sprintf("instance %d: signal of its start event %d (fired already) delivered again", i, k))
 		case "wait":
 			if run.fired == 0 {
 				// waiting on an instance no start event of which was ever
@@ -413,11 +428,14 @@ func drawShared(rt *rapid.T) sharedDesc {
 			si.Chain = append(si.Chain, rapid.IntRange(-1, 2).Draw(rt, "chain"))
 		}
 		si.First = rapid.IntRange(1, si.Starts).Draw(rt, "first")
+		if rapid.Bool().Draw(rt, "signalStarts") {
+			si.SigStarts = rapid.IntRange(1, 1<<si.Starts-1).Draw(rt, "sigStarts")
+		}
 		d.Insts = append(d.Insts, si)
 	}
 	na := rapid.IntRange(1, 10).Draw(rt, "nActions")
 	for i := 0; i < na; i++ {
-		d.Actions = append(d.Actions, sAction{Kind: rapid.SampledFrom([]string{"start", "start", "answer", "answer", "wait", "waitExpire"}).Draw(rt, "kind"),
+		d.Actions = append(d.Actions, sAction{Kind: rapid.SampledFrom([]string{"start", "start", "answer", "answer", "wait", "waitExpire", "resignal"}).Draw(rt, "kind"),
 			Inst: rapid.IntRange(0, n-1).Draw(rt, "inst"), Arg: rapid.IntRange(0, 3).Draw(rt, "arg")})
 	}
 	return d
